@@ -171,3 +171,80 @@ Theorem C06_zero_width_refuted :
   driver_table d = Some (ErrConnect 0 0) /\ conflictb d = false.
 Proof. exact zero_width_refuted. Qed.
 Print Assumptions C06_zero_width_refuted.
+
+(* ---------------------------------------------------------------- regenerated from the source (translator unit "nir") *)
+(* Gen/NirGen.v is regenerated from the current text of /repo/amaranth/hdl/_nir.py on every run (class Net, every
+   Cell subclass's comb_edges_to / comb_edges_is_per_bit / output_nets, Netlist.check_comb_cycles); Proofs/GenEqNir.v
+   proves it equal to Model/Nir.v.  `alpha` maps a Python cell (the typed fields of its __init__) to the model's
+   cell; `G.Error` = any exception other than CombinationalCycle. *)
+From V.Gen Require NirGen.
+From V.Proofs Require GenEqNir.
+
+(* For ALL Python cells (any class, any operator string, any widths) and ALL bits: comb_edges_to(bit) as translated
+   yields exactly the model's edge list, in yield order — or raises exactly when `edges_defined` says so (IndexError
+   of `value[bit]`, `assert self.operator == "m"`, NotImplementedError of the classes without the method).
+   Guard py_ok: start positions are >= 0 and an Operator has at most 3 inputs (what the netlist builder produces). *)
+Theorem C06_translated_comb_edges_to : forall c bit, GenEqNir.py_ok c ->
+  NirGen.cell_comb_edges_to c (Z.of_nat bit) =
+  if GenEqNir.edges_defined c bit then NirGen.Ok (comb_edges (GenEqNir.alpha c) bit) else NirGen.Error.
+Proof. exact GenEqNir.gen_comb_edges_to_eq. Qed.
+Print Assumptions C06_translated_comb_edges_to.
+
+(* For ALL Python cells: comb_edges_is_per_bit() as translated = the model's per_bit (no guard). *)
+Theorem C06_translated_comb_edges_is_per_bit : forall c,
+  NirGen.cell_comb_edges_is_per_bit c =
+  if GenEqNir.has_edges c then NirGen.Ok (per_bit (GenEqNir.alpha c)) else NirGen.Error.
+Proof. exact GenEqNir.gen_comb_edges_is_per_bit_eq. Qed.
+Print Assumptions C06_translated_comb_edges_is_per_bit.
+
+(* For ALL Python cells and cell indices: output_nets(idx) as translated (sets as lists in insertion order) = the
+   model's outputs; an Operator with an unknown operator string has no width (`assert False`). *)
+Theorem C06_translated_output_nets : forall c idx, GenEqNir.py_ok c ->
+  NirGen.cell_output_nets c (Z.of_nat idx) =
+  if GenEqNir.width_defined c then NirGen.Ok (outputs (GenEqNir.alpha c) idx) else NirGen.Error.
+Proof. exact GenEqNir.gen_output_nets_eq. Qed.
+Print Assumptions C06_translated_output_nets.
+
+(* For ALL Python netlists (any cells, connections, signals): Netlist.check_comb_cycles as translated (the closure
+   `traverse` with its `checked` / `busy` sets, `extra_nets`, the `cycle.start == net or cycle.start in extra_nets`
+   test, the two root loops), run with the model's fuel, either dies with an exception other than
+   CombinationalCycle, or ends exactly like the model on the abstracted netlist: returns / raises
+   CombinationalCycle with the same path / runs out of fuel. *)
+Theorem C06_translated_check_comb_cycles : forall cells conn signals, Forall GenEqNir.py_ok cells ->
+  let g := Netlist (map GenEqNir.alpha cells) conn (map snd signals) in
+  let r := NirGen.check_comb_cycles cells (map (fun p => (NL (fst p), snd p)) conn) signals (S (length (all_nets g))) in
+  r = NirGen.Error \/ r = GenEqNir.result_of_verdict (check_cycles g).
+Proof. exact GenEqNir.gen_check_comb_cycles_eq. Qed.
+Print Assumptions C06_translated_check_comb_cycles.
+(* the guards hold and the Error alternative is not taken on concrete netlists (cyclic and acyclic ones) *)
+Example C06_translated_check_comb_cycles_ex :
+  Forall GenEqNir.py_ok GenEqNir.py_mux /\ Forall GenEqNir.py_ok GenEqNir.py_sibling
+  /\ NirGen.check_comb_cycles GenEqNir.py_sibling (GenEqNir.pyc GenEqNir.conn2) [(0%Z, [NL 2; NL 1])] 20
+     = NirGen.RaiseCycle [NL 1; NC 1 0]
+  /\ NirGen.check_comb_cycles GenEqNir.py_shift (GenEqNir.pyc GenEqNir.conn3) [(0%Z, [NL 3; NL 2; NL 1])] 20
+     = NirGen.Ok tt.
+Proof.
+  split; [apply GenEqNir.py_examples_ok|]. split; [apply GenEqNir.py_examples_ok|].
+  split; [apply GenEqNir.gen_check_examples|apply GenEqNir.gen_check_examples].
+Qed.
+
+(* class Net over the raw Python integers agrees with the abstract nets NC cell bit / NL late used everywhere
+   else, through the encoding (cell << 16) | bit, negative = late; guard net_ok: bit < 2^16, late index >= 1. *)
+Theorem C06_translated_Net : forall n, GenEqNir.net_ok n ->
+  NirGen.Net_is_const (GenEqNir.enc n) = NirGen.Ok (is_const n)
+  /\ NirGen.Net_is_late (GenEqNir.enc n) = NirGen.Ok (NirGen.net_is_late n)
+  /\ NirGen.Net_cell (GenEqNir.enc n) = NirGen.net_cell n
+  /\ NirGen.Net_bit (GenEqNir.enc n) = NirGen.net_bit n.
+Proof.
+  intros n H. repeat split;
+    [apply GenEqNir.gen_Net_is_const_eq|apply GenEqNir.gen_Net_is_late_eq|apply GenEqNir.gen_Net_cell_eq
+    |apply GenEqNir.gen_Net_bit_eq]; exact H.
+Qed.
+Print Assumptions C06_translated_Net.
+(* Net.from_cell: its three assertions, then the encoding of the abstract net (all cell indices, all bits) *)
+Theorem C06_translated_Net_from_cell : forall c b,
+  NirGen.Net_from_cell (Z.of_nat c) (Z.of_nat b) =
+  if ((Z.of_nat b <? 65536)%Z && (negb (c =? 0) || (2 <=? b)))%bool
+  then NirGen.Ok (GenEqNir.enc (NirGen.mk_net (Z.of_nat c) (Z.of_nat b))) else NirGen.Error.
+Proof. exact GenEqNir.gen_Net_from_cell_eq. Qed.
+Print Assumptions C06_translated_Net_from_cell.
